@@ -13,7 +13,7 @@ from mc.core import require, Violation
 PROPERTY = 'C07'
 LEVEL = 'exploration'
 
-TREES = ['scalar', 'vec', 'mat_scalar', 'nested', 'int', 'half']
+TREES = ['scalar', 'vec', 'mat_scalar', 'nested', 'int', 'half', 'tied']
 WEIGHTS = [0.0, 0.5, 1.0, 2.0]
 
 
@@ -33,6 +33,14 @@ def make_tree(kind, k, seed, as_jax):
     return {'p': [f(2, (2,)), {'q': f(3, (1, 3))}], 'r': conv(np.asarray(vals[6:8], np.float32))}
   if kind == 'int':
     return {'a': conv(np.asarray(vals[:3], np.int32)), 'f': f(2, (2,))}
+  if kind == 'tied':
+    # tied parameters: the SAME array object at two positions of the tree (and a third, distinct leaf)
+    x = f(3, (3,))
+    return {'a': x, 'b': x, 'c': f(2, (2,))}
+  if kind == 'complex':
+    # complex parameters with non-zero imaginary parts (|z|^2 needs the conjugate; sum z*z of this leaf is not its squared norm)
+    z = np.asarray(vals[:3], np.float32) + 1j * np.asarray(vals[3:6], np.float32) + np.complex64(1j)
+    return {'z': conv(z.astype(np.complex64)), 'f': f(2, (2,))}
   if kind == 'half':
     # reduced-precision leaves; small integers and halves are exact in float16 / bfloat16, so are their weighted sums
     import ml_dtypes
@@ -48,6 +56,11 @@ def _tol(dtype):
   if dtype.kind == 'f' or dtype.name == 'bfloat16':
     return max(1e-5, 4 * float(jnp.finfo(dtype).eps))
   return 1e-5
+
+
+def _wide(a):
+  a = np.asarray(a)
+  return a.astype(np.complex128) if a.dtype.kind == 'c' else a.astype(np.float64)
 
 
 def leaves(tree):
@@ -195,7 +208,8 @@ def mean_case(case):
         if as_jax and evals % 7 == 0:
           for t in trees:
             for l in leaves(t):
-              l.delete()
+              if not l.is_deleted():
+                l.delete()
           again = [np.asarray(l, np.float64) for l in leaves(out)]
           for g, a in zip(got, again):
             require(np.array_equal(g, a), 'output changed after the inputs were deleted (aliasing)', case=nc)
@@ -217,8 +231,8 @@ def sum_case(case):
       out = tree_util.tree_sum(wrap([trees[i] for i in order], it))
       got = [np.asarray(l) for l in leaves(out)]
       for li, g in enumerate(got):
-        r = sum(np.asarray(snaps[i][li], np.float64) for i in range(n))
-        require(g.shape == r.shape and bool(np.all(np.abs(g.astype(np.float64) - r) <= 1e-5 + _tol(g.dtype) * np.abs(r))),
+        r = sum(_wide(snaps[i][li]) for i in range(n))
+        require(g.shape == r.shape and bool(np.all(np.abs(_wide(g) - r) <= 1e-5 + _tol(g.dtype) * np.abs(r))),
                 'tree_sum != sum', r.tolist(), g.tolist(), case=nc)
         require(g.dtype == snaps[0][li].dtype, 'tree_sum changed the dtype', str(snaps[0][li].dtype), str(g.dtype),
                 case=nc)
@@ -296,7 +310,10 @@ def clip_case(case):
     # very small / very large trees (float leaves only): the norm stays far from float32 under/overflow
     tree = jax.tree_util.tree_map(lambda l: (l * np.float32(sc)).astype(l.dtype) if np.asarray(l).dtype.kind == 'f' else l, tree)
   snap = snapshot(tree)
-  norm = float(np.sqrt(sum(np.sum(np.asarray(s, np.float64) ** 2) for s in snap)))
+  norm = float(np.sqrt(sum(np.sum(np.abs(_wide(s)) ** 2) for s in snap)))
+  got_norm = complex(np.asarray(tree_util.tree_l2_norm(tree)))   # a complex tree may give a complex-typed result; its VALUE is real
+  require(abs(got_norm.imag) <= 1e-6 * (1e-30 + norm) and abs(got_norm.real - norm) <= 1e-5 * (1e-30 + norm),
+          'tree_l2_norm is not the Euclidean norm', norm, str(got_norm), case=case)
   evals = 0
   for mult in ([case['mult']] if 'mult' in case else [0.0, 0.25, 0.5, 1.0, 1.5, 2.0, 4.0, 'huge']):
     nc = dict(case, mult=mult)
@@ -307,24 +324,24 @@ def clip_case(case):
                'np_int64': np.int64}[case['btype']](max(1, int(round(bound))))
     out = tree_util.tree_clip_by_global_norm(tree, bound)
     bound = float(bound)
-    got = [np.asarray(l, np.float64) for l in leaves(out)]
-    onorm = float(np.sqrt(sum(np.sum(g ** 2) for g in got)))
+    got = [_wide(l) for l in leaves(out)]
+    onorm = float(np.sqrt(sum(np.sum(np.abs(g) ** 2) for g in got)))
     require(all(np.all(np.isfinite(g)) for g in got), 'clipping produced non-finite values', case=nc)
     require(onorm <= bound * (1 + 1e-5) + 1e-30, 'clipped norm exceeds the bound', bound, onorm, case=nc)
     if abs(norm - bound) <= 1e-5 * norm and norm > 0:
       # bound equals the norm up to float32 rounding: either branch is right, the value is the input
       for g, s in zip(got, snap):
-        r = np.asarray(s, np.float64)
+        r = _wide(s)
         require(bool(np.all(np.abs(g - r) <= 1e-5 * (min(1.0, norm) + np.abs(r)))), 'clipping at the bound changed the tree',
                 r.tolist(), g.tolist(), case=nc)
     elif norm <= bound:
       for g, s in zip(got, snap):
-        require(np.array_equal(g, np.asarray(s, np.float64)), 'clipping is not the identity below the bound',
+        require(np.array_equal(g, _wide(s)), 'clipping is not the identity below the bound',
                 np.asarray(s).tolist(), g.tolist(), case=nc)
     else:
       scale = bound / norm
       for g, s in zip(got, snap):
-        r = np.asarray(s, np.float64) * scale
+        r = _wide(s) * scale
         require(bool(np.all(np.abs(g - r) <= 1e-5 * (min(1.0, norm) + np.abs(r)))), 'clipped tree is not bound/norm times the input '
                 '(direction changed)', r.tolist(), g.tolist(), case=nc)
     check_inputs_intact([tree], [snap], out, 'tree_clip_by_global_norm', nc)
@@ -337,13 +354,13 @@ def clip_case(case):
         if isinstance(l, np.ndarray) and l.shape and l.dtype.kind == 'f':
           l *= np.asarray(factor, l.dtype)
       snap2 = snapshot(tree)
-      n2 = float(np.sqrt(sum(np.sum(np.asarray(s_, np.float64) ** 2) for s_ in snap2)))
-      got_n = float(tree_util.tree_l2_norm(tree))
+      n2 = float(np.sqrt(sum(np.sum(np.abs(_wide(s_)) ** 2) for s_ in snap2)))
+      got_n = complex(np.asarray(tree_util.tree_l2_norm(tree))).real
       require(abs(got_n - n2) <= 1e-5 * (1 + n2), 'tree_l2_norm after an in-place update of the same tree object is stale',
               n2, got_n, case=dict(case, inplace=factor))
       bound = 0.5 * n2
       out = tree_util.tree_clip_by_global_norm(tree, bound)
-      on = float(np.sqrt(sum(np.sum(np.asarray(g, np.float64) ** 2) for g in leaves(out))))
+      on = float(np.sqrt(sum(np.sum(np.abs(_wide(g)) ** 2) for g in leaves(out))))
       require(on <= bound * (1 + 1e-5) + 1e-30, 'clipping after an in-place update of the same tree object exceeds the bound',
               bound, on, case=dict(case, inplace=factor))
       evals += 1
@@ -390,10 +407,10 @@ def plan(ctx):
       for tree in ('vec', 'nested'):
         mc.append({'tree': tree, 'weights': ws, 'jax': True, 'seed': ctx.seed, 'all_orders': False, 'wtype': wt})
   ctx.pmap('mean', mc, chunk=24)
-  ctx.run('sum', [{'tree': t, 'n': n, 'jax': j, 'seed': ctx.seed} for t in TREES for n in (1, 2, 3, 4)
+  ctx.run('sum', [{'tree': t, 'n': n, 'jax': j, 'seed': ctx.seed} for t in TREES + ['complex'] for n in (1, 2, 3, 4)
                   for j in (True, False) if th or n <= 3 or j])
   ctx.run('utils', [{'tree': t, 'jax': j, 'seed': ctx.seed} for t in TREES for j in (True, False)])
-  ctx.run('clip', [{'tree': t, 'k': k, 'jax': j, 'seed': ctx.seed, 'zero': z} for t in TREES[:5] for k in range(3)
+  ctx.run('clip', [{'tree': t, 'k': k, 'jax': j, 'seed': ctx.seed, 'zero': z} for t in TREES[:5] + ['tied', 'complex'] for k in range(3)
                    for j in (True, False) for z in (False, True) if not (z and k)] +
           [{'tree': t, 'k': k, 'jax': j, 'seed': ctx.seed, 'zero': False, 'scale': sc} for t in TREES[:5] for k in range(2)
            for j in (True, False) for sc in (1e-8, 1e-7, 1e-4, 1e4, 1e12)] +
